@@ -7,6 +7,7 @@ For a class and its entry method (genCode / parse) it lists, from the Python sou
             in those methods
   resets  - attributes (or `attr[const]` slots) unconditionally re-initialised in the straight-line prefix of the
             entry method, before the first statement that may read them
+(mutation through a local bound to an attribute, `x = self.X; x[k] = v`, counts as a write of X)
 and the places where a set is iterated (set-typed attribute, local bound to set(...)/set display/comprehension, or a
 direct set(...) call) without an enclosing sorted(...).
 
@@ -76,6 +77,13 @@ def _is_set_expr(e, local_sets, set_attrs):
 def analyse_function(fn, set_attrs):
     f = MethodFacts()
     local_sets = _set_typed_locals(fn)
+    # locals bound to an instance attribute (`out = self._out`): mutating the local mutates the field
+    aliases = {}
+    for node in ast.walk(fn):
+        if isinstance(node, ast.Assign) and len(node.targets) == 1 and isinstance(node.targets[0], ast.Name):
+            a = _self_attr(node.value)
+            if a is not None and '[' not in a:
+                aliases[node.targets[0].id] = a
     parents = {}
     for node in ast.walk(fn):
         for ch in ast.iter_child_nodes(node):
@@ -105,6 +113,16 @@ def analyse_function(fn, set_attrs):
                         f.writes.add(a)
                 if isinstance(par, ast.Subscript) and par.value is node and isinstance(par.ctx, (ast.Store, ast.Del)):
                     f.writes.add(a)
+        if isinstance(node, ast.Name) and node.id in aliases and isinstance(node.ctx, ast.Load):
+            par = parents.get(node)
+            if isinstance(par, ast.Attribute) and par.value is node and par.attr in MUTATORS:
+                pp = parents.get(par)
+                if isinstance(pp, ast.Call) and pp.func is par:
+                    f.writes.add(aliases[node.id])
+            if isinstance(par, ast.Subscript) and par.value is node and isinstance(par.ctx, (ast.Store, ast.Del)):
+                f.writes.add(aliases[node.id])
+            if isinstance(par, ast.AugAssign) and par.target is node:
+                f.writes.add(aliases[node.id])
         if isinstance(node, (ast.For, ast.comprehension)):
             it = node.iter
             if _is_set_expr(it, local_sets, set_attrs):
@@ -270,12 +288,14 @@ def targets():
     from pysmi.codegen.pysnmp import PySnmpCodeGen
     from pysmi.codegen.jsondoc import JsonCodeGen
     from pysmi.parser.smi import SmiV2Parser
+    from pysmi.compiler import MibCompiler
     return [
         ('symtable', SymtableCodeGen, 'genCode', ()),
         ('intermediate', IntermediateCodeGen, 'genCode', ()),
         ('pysnmp', PySnmpCodeGen, 'genCode', ()),
         ('jsondoc', JsonCodeGen, 'genCode', ()),
         ('parser', SmiV2Parser, 'parse', ()),
+        ('compiler', MibCompiler, 'compile', ('addSources', 'addSearchers', 'addBorrowers', 'buildIndex')),
     ]
 
 
